@@ -13,7 +13,7 @@ RULE = ("cases = (a) every tensor constructor and transform result (empty, fromF
 
 CTORS = ["empty", "fromFiber", "fromUncompressed", "fromRandom", "fromYAMLfile", "makePopulated", "deepcopy",
          "splitUniform", "splitEqual", "splitNonUniform", "splitUnEqual", "swizzle", "swap", "flatten", "unflatten",
-         "merge", "updateCoords", "updatePayloads", "fromFiberOfRoot", "setRoot"]
+         "merge", "updateCoords", "updatePayloads", "fromFiberOfRoot", "setRoot", "fromFiberOfSub", "setRootOfSub"]
 
 
 def gen(seed, tier):
@@ -98,6 +98,18 @@ def _build2(case):
     if c == "setRoot":
         v = ft.Tensor(rank_ids=ids, default=dflt)
         v.setRoot(t.getRoot())
+        return v, t
+    if c in ("fromFiberOfSub", "setRootOfSub"):
+        # a tensor made from a sub-fiber (first or later one) of another live tensor: the sub-fiber is copied,
+        # the source keeps owning all of its fibers
+        subs = [p for p in t.getRoot().payloads if isinstance(p, ft.Fiber)]
+        if d < 2 or not subs:
+            return t
+        sub = subs[rng.randrange(len(subs))]
+        if c == "fromFiberOfSub":
+            return ft.Tensor.fromFiber(rank_ids=ids[1:], fiber=sub, default=dflt), t
+        v = ft.Tensor(rank_ids=ids[1:], default=dflt)
+        v.setRoot(sub)
         return v, t
     return _transform(case, t, c, rng, ids, d), t
 
@@ -190,6 +202,17 @@ def run(case):
             case["impl"] = {"t": _int_snapshot(t), "ranks": _int_rank_paths(t)}
             m = H.rank_mirror(t)
             side["owners_and_chain" + (": " + m if m else "")] = (m == "")
+            # a derived per-rank operation: after Tensor.clearStats() no live fiber holds shortcut statistics
+            live = [f for _, f, _ in HI.fibers_at(t.getRoot(), 0)]
+            for f in live:
+                try:
+                    f.getPayload(0, start_pos=0) if len(f.coords) else f.getPayload(0, allocate=False, start_pos=0)
+                except Exception:
+                    pass
+            if any(f.getSavedPosStats(clear=False) != (0, 0) for f in live):
+                t.clearStats()
+                if any(f.getSavedPosStats(clear=False) != (0, 0) for f in live):
+                    side["clearStats_clears_every_live_fiber"] = False
         except Exception as e:
             # the tensor cannot even be observed through its public accessors
             case["impl"] = {"t": [], "ranks": [[[]]]}
